@@ -117,14 +117,14 @@ def cases(ctx):
     # (a) child-process batches
     envs = [None, 'en-US', 'fr']
     seeds = ['0', '1', '12345']
-    nb = ctx.budget(9, 150)
+    nb = ctx.budget(18, 300)
     for b in range(nb):
         jobs = []
         for k in range(14):
             tag = f'B{ctx.shard}.{b}.{k}'
             jobs.append(gen_dfxp_multi(rng, tag) if k % 2 == 0 else gen_sami_multi(rng, tag))
         yield {'kind': 'child', 'env': envs[(b + ctx.shard) % 3], 'hashseed': seeds[(b // 3 + ctx.shard) % 3], 'docs': jobs}
-    for i in range(ctx.budget(1500, 100000)):
+    for i in range(ctx.budget(5000, 150000)):
         tag = f'M{ctx.shard}.{i}'
         r = rng.random()
         if r < 0.35:
